@@ -321,6 +321,11 @@ func (r *runner) Do(ev Event) Obs {
 			// delivered as is
 		} else if ev.Mut == "wrongmsg" {
 			sig = w.Partial(ev.Ep, ev.From, ev.Round+1000, msgPrev)
+		} else if ev.Mut == "msgcur" {
+			// the member's genuine partial for the round the clock is in, relabelled as another round
+			sig = w.Partial(ev.Ep, ev.From, w.CurrentRound(), msgPrev)
+		} else if ev.Mut == "msgm1" && ev.Round > 1 {
+			sig = w.Partial(ev.Ep, ev.From, ev.Round-1, msgPrev)
 		}
 		if !ev.Raw && ev.Claim != ev.From && len(sig) >= 2 {
 			sig = append([]byte{}, sig...)
